@@ -81,7 +81,7 @@ def _evict(keep=6, min_age_s=3 * 3600):
 
 class Artefact:
     def __init__(self, config, path):
-        self.config = families.normalise(config) if config.get("family", "G") == "G" else config
+        self.config = families.normalise(config) if config.get("family", "G") in ("G", "X") else config
         self.path = path
         with open(os.path.join(path, "meta.json")) as f:
             self.meta = json.load(f)
@@ -170,7 +170,7 @@ def short_label(c):
 
 
 def _hash(config):
-    if config.get("family", "G") == "G":
+    if config.get("family", "G") in ("G", "X"):
         return families.config_hash(config)
     return hashlib.sha1(json.dumps(config, sort_keys=True).encode()).hexdigest()[:16]
 
